@@ -10,6 +10,10 @@ HARNESSES = [
          bounds="member of <= 2 chunks x <= 2 bytes, any recorded length (32 bit) and CRC, check and extract, fopen failure, short writes, unsupported method",
          stubs=["lha_file_header_read: installs one arbitrary header", "lha_decoder_for_name: scripted decoder or NULL", "lha_arch_*: arbitrary success/failure",
                 "fwrite: arbitrary short write", "calloc: typed static arena"]),
+    dict(name="verdict.pre", src="C07/verdict.c", defines=["CH=2", "MAXCH=1", "PRE_OP", "calloc=verif_calloc", "fwrite=verif_fwrite", "fclose=verif_fclose", "memcpy=verif_memcpy"],
+         rename_defs={"lib/lha_decoder.c": ["lha_decoder_for_name"]}, extra_srcs=X, unwind=5, unwindset={"do_decode.0": 4, "lha_decoder_read.0": 5, "verif_memcpy.0": 7, "check_progress_callback.0": 4, "ref_crc16_step.0": 9, "lha_crc16_buf.0": 5}, units=R, timeout=600, mem_gb=6,
+         bounds="as verdict.c2 with 2 chunks x 1 byte, preceded by another operation (check or 1-byte read) on the same member",
+         stubs=["as verdict.c2; the scripted decoder restarts when a new decoder is opened"]),
     dict(name="burst.n4", src="C07/burst.c", defines=["N=4"], unwind=17, unwindset={"lha_crc16_buf.0": 5}, units=["lib/crc16.c"], timeout=300,
          bounds="buffers of 1..4 bytes, every burst pattern of <= 16 bits at every bit offset inside the buffer"),
     dict(name="burst.n8", src="C07/burst.c", defines=["N=8"], unwind=17, unwindset={"lha_crc16_buf.0": 9}, units=["lib/crc16.c"], timeout=1800, tier="thorough",
